@@ -170,12 +170,13 @@ var verifSelectors = []verifSel{
 	{"a.z.y", []string{"a", "z", "y"}}, {"a.c", []string{"a", "c"}},
 	{`a\.b.c`, []string{"a.b", "c"}}, {"a-x", []string{"a-x"}},
 	{`a.\.h`, []string{"a", ".h"}},
+	{"c ", []string{"c "}}, // a key that ends with a blank is a key of its own, not "c"
 }
 
 // event shapes: keys may contain dots; values are scalars, objects, arrays
 func verifDocs() []*verifNode {
 	return []*verifNode{
-		verifObj("a", `1`, "b", `"s"`, "c", `true`),
+		verifObj("a", `1`, "b", `"s"`, "c", `true`, "c ", `"padded"`),
 		verifObj("a", verifObj("b", `1`, "c", `2`), "b", verifObj("a", `3`, "x", `[1,2]`), "a.b", `"dotted"`),
 		verifObj("a.b", `1`, "a", verifObj("b", verifObj("c", `7`, "d", `8`), "z", `null`), "c", `[{"a":1}]`, "b", `5`),
 		verifObj("a", `"scalar"`, "b", verifObj("x", verifObj("a", `1`)), "k1", `1`, "k2", `2`, "k3", `3`),
